@@ -128,7 +128,7 @@ Qed.
    QuoTruncate(c, active liquidity) per denom - the very expression a swap step applies to its fee -
    and touches nothing else of the fee state *)
 Theorem allocate_growth s coins s' : FeeWF s -> len4 coins -> allocate_incentive s coins = Ok s' ->
-  p_liq (a_pool s) <> 0 /\
+  0 < p_liq (a_pool s) /\
   a_ticks s' = a_ticks s /\ a_pool s' = a_pool s /\ a_positions s' = a_positions s /\ a_acc_pos s' = a_acc_pos s /\
   a_acc_shares s' = a_acc_shares s /\ len4 (a_acc_value s') /\
   forall j, (j < 4)%nat ->
@@ -136,9 +136,10 @@ Theorem allocate_growth s coins s' : FeeWF s -> len4 coins -> allocate_incentive
 Proof.
   intros W Lc H. unfold allocate_incentive in H.
   destruct (has_position (a_pool s)); cbn [negb] in H; [|discriminate].
+  destruct (Z.leb_spec (p_liq (a_pool s)) 0) as [|Hne]; [discriminate|].
   destruct (vquo_dec_trunc (map dec_of_int coins) (p_liq (a_pool s))) as [g|] eqn:Eg; cbn [of_opt rbind] in H; [|discriminate].
   destruct (vadd (a_acc_value s) g) as [v|] eqn:Ev; cbn [of_opt rbind] in H; [|discriminate].
-  destruct (vquo_dec_trunc_nth _ _ _ Eg) as (Hne & Lg & Ng). rewrite map_length in Lg, Ng.
+  destruct (vquo_dec_trunc_nth _ _ _ Eg) as (_ & Lg & Ng). rewrite map_length in Lg, Ng.
   destruct (vadd_nth _ _ _ Ev ltac:(pose proof (fw_acc _ W); unfold len4 in *; congruence)) as [Lv Nv].
   destruct (send_spec _ _ _ _ _ H) as ((Q&Ps&T&V&Sh&Ap&N) & _ & _). cbn in Q, Ps, T, V, Sh, Ap, N.
   split; [exact Hne|]. repeat (split; [assumption|]). split; [rewrite V; pose proof (fw_acc _ W); unfold len4 in *; congruence|].
@@ -241,35 +242,43 @@ Qed.
 (* ---------- pro rata ---------- *)
 (* the scalar fact behind the pro-rata clause: one truncation of the growth, one rounding of the
    product with the liquidity, one truncation of the payout *)
+Lemma pro_rata_core c L l g X q q' :
+  0 <= c -> 0 < L -> 0 <= l -> 0 <= g ->
+  g * L <= c * P * P < g * L + L ->
+  g * l - P <= X * P <= g * l + P ->
+  (q' - q - 1) * P < X < (q' - q + 1) * P ->
+  (q' - q - 1) * L * P <= c * l * P + L /\ c * l * P * P <= (q' - q + 1) * L * P * P + l * L + L * P.
+Proof.
+  intros Hc HL Hl Hg Hb HX Hq. set (k := q' - q) in *.
+  assert (HP : 0 < P) by reflexivity.
+  split.
+  - assert (E1 : (k - 1) * P * P < g * l + P) by nia.
+    assert (E2 : g * l * L <= c * P * P * l) by nia.
+    assert (E3 : (k - 1) * P * P * L < g * l * L + P * L) by nia.
+    assert (E4 : (k - 1) * L * P * P < (c * l * P + L) * P) by nia.
+    clear - E4 HP. nia.
+  - assert (E1 : g * l - P < (k + 1) * P * P) by nia.
+    assert (E2 : c * P * P * l < g * L * l + L * l + 1) by nia.
+    assert (E3 : (g * l - P) * L < (k + 1) * P * P * L) by nia.
+    clear - E2 E3 HP HL Hl. nia.
+Qed.
+
 Lemma pro_rata_scalar c L l d u r r' g :
   0 <= c -> 0 < L -> 0 <= l -> 0 <= d -> 0 <= u ->
   dquoT (dec_of_int c) L = Some g -> dmul d l = Some r -> dmul (d + g) l = Some r' ->
-  let dq := Z.quot (u + r') P - Z.quot (u + r) P in
-  (dq - 1) * L * P <= c * l * P + L /\ c * l * P * P <= (dq + 1) * L * P * P + l * L + L * P.
+  (Z.quot (u + r') P - Z.quot (u + r) P - 1) * L * P <= c * l * P + L /\
+  c * l * P * P <= (Z.quot (u + r') P - Z.quot (u + r) P + 1) * L * P * P + l * L + L * P.
 Proof.
-  intros Hc HL Hl Hd Hu Hg Hr Hr' dq.
+  intros Hc HL Hl Hd Hu Hg Hr Hr'.
   assert (Hcp : 0 <= dec_of_int c) by (unfold dec_of_int, P; lia).
   pose proof (dquoT_bracket _ _ _ Hcp HL Hg) as Hb. pose proof (dquoT_nonneg _ _ _ Hcp HL Hg) as Hg0.
   pose proof (dmul_bracket _ _ _ Hr) as B1. pose proof (dmul_bracket _ _ _ Hr') as B2.
   assert (Hr0 : 0 <= r) by (eapply dmul_nonneg; [| |exact Hr]; lia).
   assert (Hr0' : 0 <= r') by (eapply dmul_nonneg; [| |exact Hr']; lia).
   unfold dec_of_int in Hb.
-  subst dq. rewrite !Z.quot_div_nonneg by (unfold P; lia).
-  set (q' := (u + r') / P). set (q := (u + r) / P).
-  assert (Hq' : q' * P <= u + r' < q' * P + P) by (unfold q', P; lia).
-  assert (Hq : q * P <= u + r < q * P + P) by (unfold q, P; lia).
-  (* r' - r within g*l/P -+ 1 *)
-  assert (Hdiff1 : (r' - r) * P <= g * l + 2 * HALF) by lia.
-  assert (Hdiff2 : g * l - 2 * HALF <= (r' - r) * P) by lia.
-  assert (HP : P = 2 * HALF) by reflexivity. assert (HPpos : 0 < P) by reflexivity.
-  split.
-  - (* (q' - q - 1) * P < r' - r + ... *)
-    assert (E1 : (q' - q - 1) * P < r' - r) by lia.
-    assert (E2 : (q' - q - 1) * P * P < g * l + P) by nia.
-    assert (E3 : g * l * L <= c * P * P * l) by nia.
-    nia.
-  - assert (E1 : r' - r < (q' - q + 1) * P) by lia.
-    assert (E2 : g * l - P < (q' - q + 1) * P * P) by nia.
-    assert (E3 : c * P * P * l < g * L * l + L * l) by nia.
-    nia.
+  rewrite !Z.quot_div_nonneg by (unfold P; lia).
+  assert (HP : P = 2 * HALF) by reflexivity.
+  apply (pro_rata_core c L l g (r' - r)); try assumption.
+  - lia.
+  - unfold P in *. lia.
 Qed.
